@@ -31,6 +31,7 @@ func checkC09(c *Ctx) {
 	ruleReaderDist(c)
 	ruleStartNonBlank(c)
 	ruleEdgeLine(c)
+	ruleCollectBound(c)
 }
 
 // readerCtor reports a call that builds an inlineByteReader from a node window and a position:
@@ -322,6 +323,7 @@ func ruleParaRestStart(c *Ctx) {
 		at  ssa.Instruction // the store, or the call of the helper that stores
 		val ssa.Value
 		key string
+		rdr ssa.Value // set when the position is read, inside a helper, from a reader handed to it: the reader argument
 	}
 	var sites []site
 	for _, fn := range p.Funcs {
@@ -398,21 +400,50 @@ func ruleParaRestStart(c *Ctx) {
 								return
 							}
 							n++
-							sites = append(sites, site{caller, cl, cl.Call.Args[pi], fmt.Sprintf("%s:rest.span.Start#%d(via %s)", shortFuncName(caller), n, fn.Name())})
+							sites = append(sites, site{fn: caller, at: cl, val: cl.Call.Args[pi], key: fmt.Sprintf("%s:rest.span.Start#%d(via %s)", shortFuncName(caller), n, fn.Name())})
 						})
 					}
 					continue
 				}
 				if !hook {
+					// the helper reads the position from a reader it is handed: follow the reader to the call sites
+					if _, rdv, ok := readerPosLoad(lf); ok {
+						if rq, ok := rdv.(*ssa.Parameter); ok {
+							ri := -1
+							for i, fp := range fn.Params {
+								if fp == rq {
+									ri = i
+								}
+							}
+							for _, caller := range p.Funcs {
+								eachInstr(caller, func(x ssa.Instruction) {
+									cl, ok := x.(*ssa.Call)
+									if !ok || cl.Call.StaticCallee() != fn || ri < 0 || ri >= len(cl.Call.Args) {
+										return
+									}
+									n++
+									sites = append(sites, site{fn: caller, at: cl, val: nil, key: fmt.Sprintf("%s:rest.span.Start#%d(via %s)", shortFuncName(caller), n, fn.Name()), rdr: cl.Call.Args[ri]})
+								})
+							}
+							continue
+						}
+					}
 					return
 				}
 				n++
-				sites = append(sites, site{fn, st, lf, fmt.Sprintf("%s:rest.span.Start#%d", shortFuncName(fn), n)})
+				sites = append(sites, site{fn: fn, at: st, val: lf, key: fmt.Sprintf("%s:rest.span.Start#%d", shortFuncName(fn), n)})
 			}
 		})
 	}
 	for _, s := range sites {
-		ld, rd, ok := readerPosLoad(s.val)
+		var ld ssa.Instruction
+		var rd ssa.Value
+		ok := false
+		if s.rdr != nil {
+			ld, rd, ok = s.at, s.rdr, true
+		} else if l, r, k := readerPosLoad(s.val); k {
+			ld, rd, ok = l, r, true
+		}
 		if !ok {
 			c.Viol("PARA-REST-START", s.key, s.at.Pos(), "the rest of the paragraph starts at "+describeValue(s.val)+", which is not the reader's position after the definition")
 			continue
